@@ -7,6 +7,7 @@ import (
 	"sort"
 	"strings"
 	"testing"
+	"time"
 
 	"github.com/facebookincubator/dns/dnsrocks/dnsdata/cdb"
 	"github.com/facebookincubator/dns/dnsrocks/dnsdata/rdb"
@@ -228,5 +229,57 @@ func TestF12ZeroNetworkNotDefault(t *testing.T) {
 	for _, ip := range []string{"11.1.1.1", "0.1.1.1", "10.1.1.1", "200.1.1.1", "127.0.0.1", "128.0.0.1"} {
 		got := same(t, bs, "A", "www.example.com", ip, "")
 		t.Logf("resolver %s -> %s", ip, strings.ReplaceAll(got, "\n", " | "))
+	}
+}
+
+// rdb.get key aliasing: the same key looked up twice in one request through a reused key buffer.
+func TestGetKeyAliasing(t *testing.T) {
+	data := "Zexample.com,a.ns.example.com,dns.example.com,1,7200,1800,604800,120,120,,\n&example.com,,a.ns.example.com,172800,,\n" +
+		"@example.com,,mx1.example.com,10,60,,\n@example.com,,mx1.example.com,20,60,,\n@example.com,,mx1.example.com,30,60,,\n" +
+		"+mx1.example.com,1.1.1.1,60,,\\000\\001\n" +
+		"Mexample.com,ma\nM*.example.com,ma\n%\\000\\001,10.0.0.0/8,ma\n"
+	bs := build(t, data)
+	for _, ip := range []string{"10.1.1.1", "20.1.1.1"} {
+		got := same(t, bs, "MX", "example.com", ip, "")
+		t.Logf("%s -> %s", ip, strings.ReplaceAll(got, "\n", " | "))
+	}
+}
+
+// F16: batch compiler with BatchNumParallel == 0 ("unlimited", the CLI default) must terminate.
+func TestF16BatchNumParallelZero(t *testing.T) {
+	dir := t.TempDir()
+	in := filepath.Join(dir, "data.in")
+	var sb strings.Builder
+	sb.WriteString("Zexample.com,a.ns.example.com,dns.example.com,1,7200,1800,604800,120,120,,\n")
+	for i := 0; i < 200; i++ {
+		fmt.Fprintf(&sb, "+h%d.example.com,1.1.1.%d,60,,\n", i, i%250)
+	}
+	os.WriteFile(in, []byte(sb.String()), 0o644)
+	out := filepath.Join(dir, "rdb")
+	os.MkdirAll(out, 0o755)
+	done := make(chan error, 1)
+	go func() {
+		_, err := rdb.CompileToSpecificRDBVersion(in, out, rdb.CompilationOptions{BatchSize: 10, BatchNumParallel: 0})
+		done <- err
+	}()
+	select {
+	case err := <-done:
+		if err != nil {
+			t.Fatal(err)
+		}
+	case <-time.After(20 * time.Second):
+		t.Fatal("compilation with BatchNumParallel=0 did not finish in 20s (deadlock)")
+	}
+}
+
+// Root wildcard map: "M*." applies to every name.
+func TestRootWildcardMap(t *testing.T) {
+	data := "Zexample.com,a.ns.example.com,dns.example.com,1,7200,1800,604800,120,120,,\n&example.com,,a.ns.example.com,172800,,\n" +
+		"+www.example.com,1.1.1.1,60,,\\000\\001\n+www.example.com,9.9.9.9,60,,\n" +
+		"M*.,ma\n8*.,ea\n%\\000\\001,10.0.0.0/8,ma\n%\\000\\001,10.0.0.0/8,ea\n"
+	bs := build(t, data)
+	for _, q := range [][2]string{{"10.1.1.1", ""}, {"9.9.9.9", "10.1.2.0/24"}, {"20.1.1.1", ""}} {
+		got := same(t, bs, "A", "www.example.com", q[0], q[1])
+		t.Logf("%v -> %s", q, strings.ReplaceAll(got, "\n", " | "))
 	}
 }
